@@ -44,8 +44,16 @@ type wire struct {
 type bridgePeer struct {
 	*mock.Peer
 	q      chan wire
+	done   chan struct{} // closed when the link is taken down (q itself is never closed: senders may still be running)
 	hold   time.Duration // nothing is delivered on this link before start+hold
 	closed atomic.Bool
+}
+
+func (p *bridgePeer) down() {
+	if p.closed.CompareAndSwap(false, true) {
+		close(p.done)
+	}
+	_ = p.Stop() // the gossip routines for this peer end when they see it is not running
 }
 
 func (p *bridgePeer) Send(ch byte, b []byte) bool {
@@ -55,6 +63,8 @@ func (p *bridgePeer) Send(ch byte, b []byte) bool {
 	select {
 	case p.q <- wire{ch, append([]byte{}, b...)}:
 		return true
+	case <-p.done:
+		return false
 	case <-time.After(2 * time.Second):
 		return false
 	}
@@ -95,102 +105,163 @@ func realSwitch(r p2p.Reactor) *p2p.Switch {
 func TestRealReactors(t *testing.T) {
 	stall := time.Duration(ev.Scale("REALNET_STALL_S", 120)) * time.Second
 	cap := time.Duration(ev.Scale("REALNET_CAP_S", 420)) * time.Second
+	cache := func() *blockchain.CacheConfig {
+		return &blockchain.CacheConfig{TrieCleanLimit: 0, TrieDirtyLimit: 256, TrieTimeLimit: 5 * time.Minute, SnapshotLimit: 0}
+	}
 	rapid.Check(t, func(t *rapid.T) {
 		n := rapid.SampledFrom([]int{2, 3, 4, 4, 4, 5}).Draw(t, "n")
 		powers := make([]int64, n)
 		for i := range powers {
 			powers[i] = int64(rapid.SampledFrom([]int{15, 15, 30}).Draw(t, "p"))
 		}
-		target := uint64(rapid.IntRange(3, 5).Draw(t, "heights"))
+		target := uint64(rapid.IntRange(3, 6).Draw(t, "heights"))
 		g, keys := netsim.MakeGenesis(powers, 2)
 		text := fmt.Sprintf("real reactors: powers=%v target height %d", powers, target)
 		nodes := make([]*rnode, n)
+		peers := make([][]*bridgePeer, n) // peers[i][j] is node j as seen by node i
+		for i := range peers {
+			peers[i] = make([]*bridgePeer, n)
+		}
 		var all []*bridgePeer
 		var wg sync.WaitGroup
+		var recvPanics atomic.Value
+		var mu sync.Mutex // guards nodes[] against the pumps during a restart
+		nodeAt := func(i int) *rnode {
+			mu.Lock()
+			defer mu.Unlock()
+			return nodes[i]
+		}
 		cleanup := func() {
 			for _, p := range all {
-				p.closed.Store(true)
+				p.down()
 			}
-			for _, rn := range nodes {
-				if rn != nil && rn.conR != nil {
+			for i := range nodes {
+				if rn := nodeAt(i); rn != nil && rn.conR != nil {
 					_ = rn.conR.Stop()
 				}
 			}
-			for _, p := range all {
-				close(p.q)
-				_ = p.Stop()
-			}
 			wg.Wait()
-			for _, rn := range nodes {
-				if rn != nil {
+			for i := range nodes {
+				if rn := nodeAt(i); rn != nil {
 					rn.nd.Close()
 				}
 			}
 		}
 		defer cleanup()
-		for i := 0; i < n; i++ {
-			nd, err := netsim.NewNode(i, g, keys[i], netsim.NodeOpts{RealTicker: true, WAL: netsim.NewMemWAL(nil),
-				Cache: &blockchain.CacheConfig{TrieCleanLimit: 0, TrieDirtyLimit: 256, TrieTimeLimit: 5 * time.Minute, SnapshotLimit: 0}})
+		boot := func(i int, o netsim.NodeOpts) *rnode {
+			o.RealTicker, o.Cache = true, cache()
+			nd, err := netsim.NewNode(i, g, keys[i], o)
 			if err != nil {
 				t.Fatalf("harness: %v", err)
 			}
 			conR := consensus.NewConsensusManager(nd.CS, &configs.FastSyncConfig{Enable: false})
 			conR.SetLogger(log.New())
-			nodes[i] = &rnode{nd: nd, conR: conR, sw: realSwitch(conR)}
+			return &rnode{nd: nd, conR: conR, sw: realSwitch(conR)}
 		}
-		// links: peers[i][j] is node j as seen by node i
-		peers := make([][]*bridgePeer, n)
-		for i := range peers {
-			peers[i] = make([]*bridgePeer, n)
-			for j := 0; j < n; j++ {
-				if i == j {
-					continue
+		// link makes the two peer objects of the pair (i, j) and their pumps, and introduces them to the reactors
+		link := func(i, j int, holdIJ, holdJI time.Duration) {
+			pij := &bridgePeer{Peer: mock.NewPeer(nil), q: make(chan wire, 4096), done: make(chan struct{}), hold: holdIJ}
+			pji := &bridgePeer{Peer: mock.NewPeer(nil), q: make(chan wire, 4096), done: make(chan struct{}), hold: holdJI}
+			peers[i][j], peers[j][i] = pij, pji
+			all = append(all, pij, pji)
+			pump := func(p, back *bridgePeer, to int) {
+				defer wg.Done()
+				if p.hold > 0 {
+					select {
+					case <-time.After(p.hold):
+					case <-p.done:
+						return
+					}
 				}
-				p := &bridgePeer{Peer: mock.NewPeer(nil), q: make(chan wire, 4096)}
-				if rapid.IntRange(0, 2).Draw(t, "slow") > 0 {
-					p.hold = time.Duration(rapid.SampledFrom([]int{20, 100, 400, 1500}).Draw(t, "hold")) * time.Millisecond
-					text += fmt.Sprintf(" link %d->%d holds back for %v;", i, j, p.hold)
+				for {
+					select {
+					case <-p.done:
+						return
+					case w := <-p.q:
+						func() {
+							defer func() {
+								// MConnection's recvRoutine recovers a panic of Receive and drops the peer; here it is a
+								// finding unless the link is being taken down under the reactor's feet
+								if r := recover(); r != nil && !p.closed.Load() && !back.closed.Load() {
+									recvPanics.Store(fmt.Sprintf("Receive on node %d panicked: %v", to, r))
+								}
+							}()
+							nodeAt(to).conR.Receive(w.ch, back, w.b)
+						}()
+					}
 				}
-				peers[i][j] = p
-				all = append(all, p)
 			}
+			// as the switch does on both sides of a new connection: every reactor gets to initialise the peer before the
+			// connection carries anything, and only then the peer is added (which starts the gossip routines and sends the
+			// first NewRoundStep)
+			ni, nj := nodeAt(i), nodeAt(j)
+			ni.conR.InitPeer(pij)
+			nj.conR.InitPeer(pji)
+			_ = ni.sw.VerifC18AddPeer(pij)
+			_ = nj.sw.VerifC18AddPeer(pji)
+			wg.Add(2)
+			go pump(pij, pji, j) // what node i sends to "j" arrives at node j from "i"
+			go pump(pji, pij, i)
+			ni.conR.AddPeer(pij)
+			nj.conR.AddPeer(pji)
 		}
-		for i, rn := range nodes {
-			if err := rn.conR.Start(); err != nil {
+		for i := 0; i < n; i++ {
+			nodes[i] = boot(i, netsim.NodeOpts{WAL: netsim.NewMemWAL(nil)})
+		}
+		for i := range nodes {
+			if err := nodes[i].conR.Start(); err != nil {
 				t.Fatalf("harness: reactor %d: %v", i, err)
 			}
 		}
-		for i := 0; i < n; i++ {
-			for j := 0; j < n; j++ {
-				if i == j {
-					continue
-				}
-				p, back, dst := peers[i][j], peers[j][i], nodes[j]
-				// what node i sends to "j" arrives at node j from "i"
-				wg.Add(1)
-				go func() {
-					defer wg.Done()
-					if p.hold > 0 {
-						time.Sleep(p.hold)
-					}
-					for w := range p.q {
-						if p.closed.Load() {
-							continue
-						}
-						func() {
-							defer func() { recover() }() // a reactor stopped under our feet at shutdown
-							dst.conR.Receive(w.ch, back, w.b)
-						}()
-					}
-				}()
+		slow := 0
+		drawHold := func(i, j int) time.Duration {
+			if rapid.IntRange(0, 2).Draw(t, "slow") == 0 {
+				return 0
 			}
+			slow++
+			h := time.Duration(rapid.SampledFrom([]int{20, 100, 400, 1500}).Draw(t, "hold")) * time.Millisecond
+			text += fmt.Sprintf(" link %d->%d holds back for %v;", i, j, h)
+			return h
 		}
 		for i := 0; i < n; i++ {
+			for j := i + 1; j < n; j++ {
+				link(i, j, drawHold(i, j), drawHold(j, i))
+			}
+		}
+		// optionally one node is stopped and started again on its own database and log while the others go on
+		restartNode, restartAfter, restarted := -1, time.Duration(0), false
+		if rapid.Bool().Draw(t, "restart") {
+			restartNode = rapid.IntRange(0, n-1).Draw(t, "restartnode")
+			restartAfter = time.Duration(rapid.SampledFrom([]int{30, 150, 600}).Draw(t, "restartafter")) * time.Millisecond
+			text += fmt.Sprintf(" node %d restarts after %v;", restartNode, restartAfter)
+		}
+		doRestart := func(k int) {
+			old := nodeAt(k)
 			for j := 0; j < n; j++ {
-				if i != j {
-					_ = nodes[i].sw.VerifC18AddPeer(peers[i][j])
-					nodes[i].conR.InitPeer(peers[i][j])
-					nodes[i].conR.AddPeer(peers[i][j])
+				if j == k {
+					continue
+				}
+				peers[k][j].down()
+				peers[j][k].down()
+				nodeAt(j).conR.RemovePeer(peers[j][k], "peer restarts")
+			}
+			_ = old.conR.Stop()
+			var img []byte
+			if mw, ok := old.nd.CS.VerifWAL().(*netsim.MemWAL); ok {
+				img = mw.Image("all")
+			}
+			old.nd.Close()
+			nw := boot(k, netsim.NodeOpts{DB: old.nd.DB, WAL: netsim.NewMemWALFrom(img, nil)})
+			mu.Lock()
+			nodes[k] = nw
+			mu.Unlock()
+			if err := nw.conR.Start(); err != nil {
+				ev.Violation(t, "realnet.restart-failed", text, "node %d could not be started again on its own database and log: %v", k, err)
+				return
+			}
+			for j := 0; j < n; j++ {
+				if j != k {
+					link(k, j, 0, 0)
 				}
 			}
 		}
@@ -204,9 +275,19 @@ func TestRealReactors(t *testing.T) {
 		maxRound := uint32(0)
 		verdict := ""
 		for verdict == "" {
+			if restartNode >= 0 && !restarted && time.Since(start) > restartAfter {
+				restarted = true
+				msg, frame := ev.Try(func() { doRestart(restartNode) })
+				if msg != "" {
+					ev.Violation(t, "panic:"+frame, text, "restart of node %d panicked: %s", restartNode, msg)
+					return
+				}
+				lastChange[restartNode] = time.Now()
+			}
 			fp := ""
 			minH := uint64(1 << 62)
-			for i, rn := range nodes {
+			for i := range nodes {
+				rn := nodeAt(i)
 				rs := rn.nd.CS.GetRoundState()
 				fp += fmt.Sprintf("%d/%d/%d ", rs.Height, rs.Round, rs.Step)
 				h := rn.nd.BOps.Height()
@@ -220,7 +301,7 @@ func TestRealReactors(t *testing.T) {
 					maxRound = rs.Round
 				}
 			}
-			if minH >= target {
+			if minH >= target && (restartNode < 0 || restarted) {
 				break
 			}
 			for i := range nodes {
@@ -232,6 +313,10 @@ func TestRealReactors(t *testing.T) {
 			}
 			if maxRound > 150 {
 				verdict = fmt.Sprintf("a height went through more than 150 rounds (%s)", fp)
+			}
+			if v := recvPanics.Load(); v != nil {
+				ev.Violation(t, "realnet.receive-panicked", text, "%s", v.(string))
+				return
 			}
 			if verdict == "" && time.Since(start) > cap {
 				t.Fatalf("harness: the real network did not reach height %d within %v (%s) - inconclusive", target, cap, fp)
@@ -248,22 +333,19 @@ func TestRealReactors(t *testing.T) {
 		}
 		// agreement on everything every node has
 		for h := uint64(1); h <= target; h++ {
-			ref := nodes[0].nd.BOps.LoadBlock(h)
+			ref := nodeAt(0).nd.BOps.LoadBlock(h)
 			for i := 1; i < n; i++ {
-				if b := nodes[i].nd.BOps.LoadBlock(h); ref != nil && b != nil && b.Hash() != ref.Hash() {
+				if b := nodeAt(i).nd.BOps.LoadBlock(h); ref != nil && b != nil && b.Hash() != ref.Hash() {
 					ev.Violation(t, "realnet.agreement", text, "nodes 0 and %d committed different blocks at height %d", i, h)
 				}
 			}
 		}
-		slow := 0
-		for _, p := range all {
-			if p.hold > 0 {
-				slow++
-			}
-		}
-		ev.Case(slow > 0 && n >= 3, text, "real-reactors", fmt.Sprintf("real-reactors:n=%d", n))
+		ev.Case((slow > 0 || restarted) && n >= 3, text, "real-reactors", fmt.Sprintf("real-reactors:n=%d", n))
 		if maxRound > 1 {
 			ev.Class("real-reactors:some-height-needed-more-than-one-round")
+		}
+		if restarted {
+			ev.Class("real-reactors:node-restarted")
 		}
 	})
 }
